@@ -363,9 +363,27 @@ def check_case(case):
     return Result(True, nontrivial=nontrivial, classes=classes)
 
 
+def check_confirmed(case):
+    """generation mode: a schedule-dependent failure is only reported (and shrunk) when the
+    history fails 3 times out of 3; otherwise it is a flaky observation (not a violation).
+    Known-class failures are deterministic consequences of the history: no confirmation."""
+    r = check_case(case)
+    if r.ok or r.key in KNOWN:
+        return r
+    for _ in range(2):
+        r2 = check_case(case)
+        if r2.ok or r2.key in KNOWN:
+            return Result(True, nontrivial=False, classes=["flaky_observation"])
+        r = r2
+    return r
+
+
 def strategy():
     from hypothesis import strategies as st
-    dwell = st.sampled_from([0, 0, 200, 1000, 3000, 5000])
+    # Hypothesis shrinks sampled_from towards the first element and integers towards the
+    # lower bound: lists are ordered (and k is mirrored) so that shrinking goes towards the
+    # *decisive* histories (long dwell, many sections, simultaneous requests)
+    dwell = st.sampled_from([5000, 3000, 1000, 200, 0, 0])
     exit_ = st.sampled_from(["return", "return", "exit", "_exit"])
     run1 = st.one_of(
         st.fixed_dictionaries({"kind": st.just("touch")}),
@@ -373,7 +391,7 @@ def strategy():
         st.fixed_dictionaries({"kind": st.just("killed")}),
         st.fixed_dictionaries({"kind": st.just("mfront"), "dwell_us": dwell}),
     )
-    act2 = st.fixed_dictionaries({"k": st.integers(1, 5), "gap_us": st.sampled_from([0, 0, 200, 1000]),
+    act2 = st.fixed_dictionaries({"k": st.integers(1, 5).map(lambda x: 6 - x), "gap_us": st.sampled_from([0, 0, 200, 1000]),
                                   "offset_us": st.sampled_from([0, 0, 0, 100, 500, 2000]), "dwell_us": dwell, "exit": exit_})
     nmax = int(param("max_actors", 8))
     return st.fixed_dictionaries({
@@ -394,5 +412,5 @@ if __name__ == "__main__":
     replay_main({"histories": check_case})
     u = Unit("C46_lock")
     actor()
-    run_hypothesis(u, "histories", strategy(), check_case, max_examples=int(param("cases", 60)))
+    run_hypothesis(u, "histories", strategy(), check_confirmed, max_examples=int(param("cases", 60)))
     sys.exit(u.finish())
